@@ -34,7 +34,7 @@ class RealLife:
     def gen(self, seed, index, tier):
         rng = runner.rng_for(seed, self.name, index)
         project = layouts.gen_project(rng, mode="plain", allow_mixed=True, vcs="none", allow_odd_paths=False, allow_symlinks=False,
-                                      allow_glob=True, max_files=3)
+                                      allow_glob=True, max_files=3, wide_glob=True)
         project["cfg"].update({"commit": True, "tag": True, "push": rng.random() < 0.6})
         project["vcs"] = None
         tree = rp.tokenize(project["version_pattern"])
@@ -100,6 +100,8 @@ class RealLife:
                       "files": sorted(configured), "ops": [o["op"] + ("!" + o["fail"] if o.get("fail") else "") for o in case["ops"]]}
         successes = 0
         dirty_since_nocommit = False
+        if any(f.get("wide_group") for f in project["files"]):
+            ctx.probe("glob_with_6000_chars_of_paths")
         for step, op in enumerate(case["ops"]):
             rg.set_date(clock)
             kind = op["op"]
